@@ -265,3 +265,33 @@ Lemma no_fsync_powerloss_refuted_lemma :
   pl_read (drun ops (dinit w_target (Some [1; 2]))) w_target = Some [] /\
   powerloss_atomic_b (kprotocol 3 w_tmp w_target [[4; 5; 6]] [KFsync 3; KClose 3] []) w_target (Some [1; 2]) [4; 5; 6] = true.
 Proof. vm_compute. auto. Qed.
+
+(* storage.dump for ANY sequence of writes by the compressor and ANY automatic spills:
+   its kernel calls are create, writes, fsync, close, rename *)
+Lemma dump_compiles_lemma f tmp target pieces cuts :
+  exists chunks,
+    compile no_bufs (dump_uops f tmp target pieces cuts) =
+      kprotocol f tmp target chunks [KFsync f; KClose f] [] /\
+    concat chunks = concat (map fst pieces).
+Proof.
+  unfold dump_uops, uprotocol. cbn [compile].
+  destruct (compile_body f (dump_body f pieces) (upd_z no_bufs f []) (dump_body_ok f pieces))
+    as (chunks & b' & E & O & C).
+  rewrite E. cbn [compile app].
+  replace (cut [] (upd_z b' f [] f)) with (@nil bytes) by (unfold upd_z; rewrite Z.eqb_refl; reflexivity).
+  cbn [map app].
+  exists (chunks ++ cut cuts (b' f)). split.
+  - unfold kprotocol. rewrite map_app, <- app_assoc. reflexivity.
+  - rewrite concat_app, concat_cut, C. unfold upd_z. rewrite Z.eqb_refl. cbn [app].
+    apply dump_body_payload.
+Qed.
+
+Lemma dump_powerloss_general_lemma s0 f tmp target pieces cuts :
+  wf (ks s0) -> names (ks s0) tmp = None -> tmp <> target ->
+  (forall i, i < next (ks s0) -> durable s0 i = data (ks s0) i) ->
+  powerloss_atomic s0 (compile no_bufs (dump_uops f tmp target pieces cuts)) target
+                   (read (ks s0) target) (concat (map fst pieces)).
+Proof.
+  intros W T N Dd. destruct (dump_compiles_lemma f tmp target pieces cuts) as (chunks & E & C).
+  rewrite E, <- C. apply durable_protocol_lemma; auto.
+Qed.
